@@ -82,7 +82,7 @@ static R3 run3d(B3& b) {
 static void near0(Real v, const mpq_class& tol, const std::string& label) { sx::check_le(v, sx::constant(tol), label); sx::check_le(-v, sx::constant(tol), label); }
 
 // C06: error-free observations (with instrument / target heights) give zero corrections and residuals
-static void case_consistent(const Spec3& spec0, int alg, bool omit) {
+static void case_consistent(const Spec3& spec0, int alg, bool omit, bool structure_only = false) {
   Spec3 spec = spec0; if (omit) for (auto& p : spec.pts) if (p.status.find("adj") != std::string::npos) p.give = false;
   std::vector<Real> err(nobs(spec), sx::rat(0));
   B3 b; if (!build3d(b, spec, err, ALGS[alg])) return; std::string tag = std::string(ALGS[alg]) + (omit ? " (approximate coordinates by Acord2)" : "");
@@ -91,8 +91,14 @@ static void case_consistent(const Spec3& spec0, int alg, bool omit) {
   for (auto& p : spec.pts) { const LocalPoint& lp = IS->PD[PointID(p.id)]; sx::check_true(lp.test_xy() && lp.test_z(), tag + " point " + p.id + " has coordinates", ""); if (!lp.test_xy() || !lp.test_z()) return;
     approx[p.id] = {lp.x(), lp.y(), lp.z()};
     // approximate coordinates computed by Acord2 need only be approximate (slope observations with instrument heights are used unreduced)
-    if (omit && !p.give) { near0(lp.x() - sx::constant(p.x), mpq_class(1, 10), tag + " approximate x of " + p.id + " within 0.1 m of the generating one"); near0(lp.y() - sx::constant(p.y), mpq_class(1, 10), tag + " approximate y of " + p.id + " within 0.1 m of the generating one");
+    if (omit && !p.give && !structure_only) { near0(lp.x() - sx::constant(p.x), mpq_class(1, 10), tag + " approximate x of " + p.id + " within 0.1 m of the generating one"); near0(lp.y() - sx::constant(p.y), mpq_class(1, 10), tag + " approximate y of " + p.id + " within 0.1 m of the generating one");
       near0(lp.z() - sx::constant(p.z), mpq_class(1, 10), tag + " approximate z of " + p.id + " within 0.1 m of the generating one"); } }
+  if (structure_only) {          // with instrument / target heights the approximate coordinates are approximate only and gama-local iterates, which the exact
+    // engine cannot follow; what is checked is that no observation of the consistent network is thrown away as an outlier on the way
+    bool huge = IS->huge_abs_terms(); std::string which; if (huge) for (int i = 1; i <= IS->observations_count(); i++) if (sx::numeric0(IS->test_abs_term(i)) != 0) { std::ostringstream w; w << " obs " << i << ": " << sx::numeric0(IS->test_abs_term(i)); which += w.str(); }
+    if (huge) for (auto& p : spec.pts) { std::ostringstream w; w.precision(12); w << " " << p.id << "=(" << sx::numeric0(approx[p.id][0]) << "," << sx::numeric0(approx[p.id][1]) << "," << sx::numeric0(approx[p.id][2]) << ")"; which += w.str(); }
+    sx::check_true(!huge, tag + " no observation has an outlying absolute term (none is removed)", which);
+    sx::reached("net3d-consistent"); return; }
   R3 r = run3d(b); sx::check_true(r.ok, tag + " adjusted", r.why); if (!r.ok) return;
   sx::check_true(r.m == (int)nobs(spec), tag + " every observation takes part", std::to_string(r.m));
   // adjusted = approximate + correction equals the generating coordinate (to the second-order term of the linearisation: 1e-6 m)
@@ -135,18 +141,18 @@ static void case_agree(const Spec3& spec) {
 // points with status and coordinates, parameters.  No adjustment is involved (export_xml does not need one).
 static int okind(Observation* o) { if (dynamic_cast<Direction*>(o)) return 0; if (dynamic_cast<S_Distance*>(o)) return 1; if (dynamic_cast<Z_Angle*>(o)) return 2; if (dynamic_cast<Distance*>(o)) return 3;
   if (dynamic_cast<Angle*>(o)) return 4; if (dynamic_cast<H_Diff*>(o)) return 5; if (dynamic_cast<Azimuth*>(o)) return 6; return 9; }
-static void case_export_description(bool obs_level_ih, const std::string& axes = "ne", const std::string& handed = "left-handed", bool covmat = false) {
+static void case_export_description(bool obs_level_ih, const std::string& axes = "ne", const std::string& handed = "left-handed", bool covmat = false, bool degrees = false) {
   std::ostringstream o;
   o << "<?xml version=\"1.0\" ?>\n<gama-local xmlns=\"http://www.gnu.org/software/gama/gama-local\">\n<network axes-xy=\"" << axes << "\" angles=\"" << handed << "\">\n<description>export of instrument and target heights</description>\n"
-    << "<parameters sigma-apr=\"10\" conf-pr=\"0.95\" tol-abs=\"1000\" sigma-act=\"apriori\" />\n<points-observations>\n"
+    << "<parameters sigma-apr=\"10\" conf-pr=\"0.95\" tol-abs=\"1000\" sigma-act=\"apriori\"" << (degrees ? " angles=\"360\"" : "") << " />\n<points-observations>\n"
     << "<point id=\"S\" x=\"1000\" y=\"2000\" z=\"300\" fix=\"xyz\" />\n<point id=\"T1\" x=\"1090\" y=\"2120\" z=\"500\" adj=\"xyz\" />\n<point id=\"T2\" x=\"1120\" y=\"1840\" z=\"450\" adj=\"xyZ\" />\n<point id=\"T4\" x=\"880\" y=\"1910\" z=\"500\" fix=\"xy\" adj=\"z\" />\n"
     << "<obs from=\"S\"" << (obs_level_ih ? " from_dh=\"1.5\"" : "") << ">\n"
-    << "<direction to=\"T1\" val=\"10\" stdev=\"10\" />\n<direction to=\"T2\" val=\"120\" stdev=\"11\" />\n"
-    << "<s-distance to=\"T1\" val=\"250\" stdev=\"5\" to_dh=\"1.1\" />\n<z-angle to=\"T1\" val=\"40\" stdev=\"12\" to_dh=\"1.1\" />\n"
-    << "<s-distance to=\"T2\" val=\"260\" stdev=\"6\" from_dh=\"1.6\" to_dh=\"1.2\" />\n<z-angle to=\"T2\" val=\"60\" stdev=\"13\" from_dh=\"1.6\" to_dh=\"1.2\" />\n"
+    << "<direction to=\"T1\" val=\"" << (degrees ? "9-30-00" : "10") << "\" stdev=\"10\" />\n<direction to=\"T2\" val=\"" << (degrees ? "108-15-30.5" : "120") << "\" stdev=\"11\" />\n"
+    << "<s-distance to=\"T1\" val=\"250\" stdev=\"5\" to_dh=\"1.1\" />\n<z-angle to=\"T1\" val=\"" << (degrees ? "36-00-00" : "40") << "\" stdev=\"12\" to_dh=\"1.1\" />\n"
+    << "<s-distance to=\"T2\" val=\"260\" stdev=\"6\" from_dh=\"1.6\" to_dh=\"1.2\" />\n<z-angle to=\"T2\" val=\"" << (degrees ? "54-07-12.25" : "60") << "\" stdev=\"13\" from_dh=\"1.6\" to_dh=\"1.2\" />\n"
     << "<distance to=\"T2\" val=\"200\" stdev=\"7\" />\n"
-    << "<angle bs=\"T1\" fs=\"T2\" val=\"110\" stdev=\"14\" from_dh=\"1.5\" bs_dh=\"1.1\" fs_dh=\"1.2\" />\n"
-    << "<azimuth to=\"T4\" val=\"250\" stdev=\"15\" />\n";
+    << "<angle bs=\"T1\" fs=\"T2\" val=\"" << (degrees ? "99-59-59.5" : "110") << "\" stdev=\"14\" from_dh=\"1.5\" bs_dh=\"1.1\" fs_dh=\"1.2\" />\n"
+    << "<azimuth to=\"T4\" val=\"" << (degrees ? "225-45-00" : "250") << "\" stdev=\"15\" />\n";
   // a banded covariance matrix for the station (units of the input: cc^2, mm^2): diagonal = squares of the standard deviations above
   if (covmat) { int sd[9] = {10, 11, 5, 12, 6, 13, 7, 14, 15}; o << "<cov-mat dim=\"9\" band=\"1\">\n"; for (int i = 0; i < 9; i++) { o << sd[i] * sd[i]; if (i < 8) o << " " << (i % 2 ? -1 : 1) * (sd[i] * sd[i + 1]) / 4; o << "\n"; } o << "</cov-mat>\n"; }
   o << "</obs>\n"
@@ -158,7 +164,7 @@ static void case_export_description(bool obs_level_ih, const std::string& axes =
   Real h1 = sx::input("ih"), h2 = sx::input("th1"), h3 = sx::input("th2"), h4 = sx::input("ih2"); for (Real h : {h1, h2, h3, h4}) sx::assume_range(h, Q(-3), Q(3));
   for (size_t k = 0; k < oa.size(); k++) { Observation* ob = oa[k]; int kd = okind(ob); Real v = sx::input("v" + std::to_string(k + 1));
     if (kd == 0 || kd == 4 || kd == 6) sx::assume_range(v, Q(1, 100), Q(628, 100)); else if (kd == 2) sx::assume_range(v, Q(1, 100), Q(314, 100)); else if (kd == 5) sx::assume_range(v, Q(-500), Q(500)); else sx::assume_range(v, Q(1), Q(5000));
-    ob->set_value(v);
+    bool angular = (kd == 0 || kd == 2 || kd == 4 || kd == 6); if (!(degrees && angular)) ob->set_value(v);      // (sexagesimal printing is followed on constants only)
     bool t2 = ob->to().str() == "T2";
     if (kd == 1 || kd == 2) { ob->set_from_dh(t2 ? h4 : h1); ob->set_to_dh(t2 ? h3 : h2); }
     else if (kd == 4) { Angle* an = static_cast<Angle*>(ob); an->set_from_dh(h1); an->set_bs_dh(h2); an->set_fs_dh(h3); }
@@ -179,8 +185,8 @@ static void case_export_description(bool obs_level_ih, const std::string& axes =
       sx::check_true(okind(q) == kd && q->from().str() == p->from().str() && q->to().str() == p->to().str(), l + "has the same type and end points", "");
       if (okind(q) != kd) return;
       // angular values pass through gon in the text: two rounded constants whose product differs from 1 by about 1e-16
-      if (kd == 0 || kd == 2 || kd == 4 || kd == 6) near0(q->value() - p->value(), mpq_class(1, 1000000000000L), l + "value"); else sx::check_eq(q->value(), p->value(), l + "value");
-      sx::check_eq(q->stdDev(), p->stdDev(), l + "standard deviation");
+      if (kd == 0 || kd == 2 || kd == 4 || kd == 6) near0(q->value() - p->value(), degrees ? mpq_class(1, 1000000000L) : mpq_class(1, 1000000000000L), l + "value"); else sx::check_eq(q->value(), p->value(), l + "value");
+      if (degrees) near0(q->stdDev() - p->stdDev(), mpq_class(1, 1000000000L), l + "standard deviation"); else sx::check_eq(q->stdDev(), p->stdDev(), l + "standard deviation");
       sx::check_eq(q->from_dh(), p->from_dh(), l + "from_dh");
       sx::check_eq(q->to_dh(), p->to_dh(), l + (kd == 4 ? "bs_dh" : "to_dh"));
       if (kd == 4) { Angle* pa = static_cast<Angle*>(p); Angle* qa = static_cast<Angle*>(q); sx::check_true(qa->fs().str() == pa->fs().str(), l + "fs", ""); sx::check_eq(qa->fs_dh(), pa->fs_dh(), l + "fs_dh"); }
@@ -193,7 +199,7 @@ static void case_export_description(bool obs_level_ih, const std::string& axes =
     { auto ca = A->OD.clusters.begin(); auto cb = B->OD.clusters.begin(); int k = 0;
       for (; ca != A->OD.clusters.end() && cb != B->OD.clusters.end(); ++ca, ++cb) { k++; const auto& CA = (*ca)->covariance_matrix; const auto& CB = (*cb)->covariance_matrix; std::string l = t + ": cluster " + std::to_string(k) + " ";
         sx::check_true(CA.dim() == CB.dim() && CA.bandWidth() == CB.bandWidth(), l + "covariance matrix dimension and band", std::to_string(CB.dim()) + "/" + std::to_string(CB.bandWidth())); if (CA.dim() != CB.dim() || CA.bandWidth() != CB.bandWidth()) continue;
-        for (int i = 1; i <= (int)CA.dim(); i++) for (int j = i; j <= (int)std::min(CA.dim(), i + CA.bandWidth()); j++) sx::check_eq(CB(i, j), CA(i, j), l + "covariance " + std::to_string(i) + "," + std::to_string(j)); }
+        for (int i = 1; i <= (int)CA.dim(); i++) for (int j = i; j <= (int)std::min(CA.dim(), i + CA.bandWidth()); j++) { if (degrees) near0(CB(i, j) - CA(i, j), mpq_class(1, 1000000L), l + "covariance " + std::to_string(i) + "," + std::to_string(j)); else sx::check_eq(CB(i, j), CA(i, j), l + "covariance " + std::to_string(i) + "," + std::to_string(j)); } }
       sx::check_true(ca == A->OD.clusters.end() && cb == B->OD.clusters.end(), t + ": same number of clusters", ""); }
     sx::check_true(A->PD.local_coordinate_system == B->PD.local_coordinate_system && A->PD.left_handed_angles() == B->PD.left_handed_angles(), t + ": axes and angle orientation", "");
     sx::check_eq(A->apriori_m_0(), B->apriori_m_0(), t + ": sigma-apr"); sx::check_eq(A->tol_abs(), B->tol_abs(), t + ": tol-abs"); sx::check_eq(A->conf_pr(), B->conf_pr(), t + ": conf-pr"); sx::check_true(A->m_0_apriori() == B->m_0_apriori(), t + ": sigma-act", "");
@@ -201,14 +207,15 @@ static void case_export_description(bool obs_level_ih, const std::string& axes =
   sx::reached("net3d-export");
 }
 
-static Spec3 polar(const std::string& name, bool heights, bool second_station, bool second_without_ih = false) {
+static Spec3 polar(const std::string& name, bool heights, bool second_station, bool second_without_ih = false, bool tall = false) {
   Spec3 s; s.name = name; Q X0 = 1000, Y0 = 2000, Z0 = 300;
   s.pts.push_back({"S", X0, Y0, Z0, "fix=\"xyz\"", true});
   Q off[5][3] = {{90, 120, 200}, {120, -160, 150}, {-30, 40, 120}, {-120, -90, 200}, {160, 120, -150}};
   // T4 is a second fixed point: it fixes the orientation of the direction sets (one fixed point alone leaves the rotation free)
   for (int i = 0; i < 4; i++) s.pts.push_back({"T" + std::to_string(i + 1), X0 + off[i][0], Y0 + off[i][1], Z0 + off[i][2], i == 3 ? "fix=\"xyz\"" : "adj=\"xyz\"", true});
   St3 st; st.from = 0; st.zero = Q(7, 10); st.ih = heights ? Q(3, 2) : Q(0);
-  for (int i = 1; i <= 4; i++) { Q th = heights ? Q(10 + i, 10) : Q(0); st.obs.push_back({0, i, Q(10), Q(0)}); st.obs.push_back({1, i, Q(5), th}); st.obs.push_back({2, i, Q(12), th}); }
+  if (tall) st.ih = Q(1);                                                   // a low instrument and long prism poles: more than 1 m apart
+  for (int i = 1; i <= 4; i++) { Q th = heights ? Q(10 + i, 10) : Q(0); if (tall) th = Q(9 + i, 4); st.obs.push_back({0, i, Q(10), Q(0)}); st.obs.push_back({1, i, Q(5), th}); st.obs.push_back({2, i, Q(12), th}); }
   s.st.push_back(st);
   if (second_station) { St3 t2; t2.from = 0; t2.zero = Q(31, 10); t2.ih = (heights && !second_without_ih) ? Q(8, 5) : Q(0);      // (second_without_ih: the second set carries no from_dh attribute)           // the same station set up again: another circle zero and instrument height
     for (int i = 1; i <= 4; i++) { Q th = heights ? Q(20 - i, 10) : Q(0); t2.obs.push_back({0, i, Q(15), Q(0)}); t2.obs.push_back({1, i, Q(4), th}); t2.obs.push_back({2, i, Q(10), th}); } s.st.push_back(t2); }
@@ -216,16 +223,37 @@ static Spec3 polar(const std::string& name, bool heights, bool second_station, b
   return s;
 }
 
+// a free station whose coordinates (height included) are left to Acord2, tied to three fixed points and surveying two new points whose
+// coordinates are omitted as well: the height of the station has to be derived first (from zenith angles and distances to the fixed
+// points), the heights of the new points from it
+static Spec3 free_station(const std::string& name, bool give_station_xy) {
+  Spec3 s; s.name = name; Q X0 = 1000, Y0 = 2000, Z0 = 300;
+  s.pts.push_back({"P", X0, Y0, Z0, "adj=\"xyz\"", false});
+  Q off[5][3] = {{90, 120, 200}, {120, -160, 150}, {-120, -90, 200}, {-30, 40, 120}, {160, 120, -150}};
+  const char* id[5] = {"A", "B", "C", "T1", "T2"};
+  for (int i = 0; i < 5; i++) s.pts.push_back({id[i], X0 + off[i][0], Y0 + off[i][1], Z0 + off[i][2], i < 3 ? "fix=\"xyz\"" : "adj=\"xyz\"", i < 3});
+  (void)give_station_xy;
+  St3 st; st.from = 0; st.zero = Q(11, 10); st.ih = Q(0);
+  for (int i = 1; i <= 5; i++) { st.obs.push_back({0, i, Q(10), Q(0)}); st.obs.push_back({1, i, Q(5), Q(0)}); st.obs.push_back({2, i, Q(12), Q(0)}); }
+  s.st.push_back(st);
+  return s;
+}
+
 static void gen_cases(const sx::Options& opt, std::vector<sx::Case>& cases) {
   g_prop = opt.prop; bool th = opt.tier == "thorough";
   auto add = [&](const std::string& n, const std::string& fam, std::function<void()> f) { cases.push_back({n, fam, f}); };
-  std::vector<Spec3> specs{polar("polar-plain", false, false), polar("polar-heights", true, false), polar("polar-heights-2sets", true, true), polar("polar-heights-2sets-second-without-ih", true, true, true)};
-  // (omitted approximate coordinates only without instrument heights: Acord2 uses the slope observations unreduced, its result is then
-  //  0.1-0.2 m off and gama-local needs several re-linearisations, which the exact engine cannot follow)
-  if (on("C06")) { int k = 0; for (auto& s : specs) for (int omit = 0; omit < 2; omit++) { if (omit && s.name != "polar-plain") continue; int alg = (k++) % 3; auto sp = std::make_shared<Spec3>(s);
-      add("net3d/consistent/" + s.name + "/" + ALGS[alg] + (omit ? "/acord" : "/given"), "spatial networks", [sp, alg, omit] { case_consistent(*sp, alg, omit != 0); }); } }
+  std::vector<Spec3> specs{polar("polar-plain", false, false), polar("polar-heights", true, false), polar("polar-heights-2sets", true, true), polar("polar-heights-2sets-second-without-ih", true, true, true), polar("polar-heights-tall-poles", true, false, false, true)};
+  // (omitted approximate coordinates with instrument heights: since 897d03f / a67f50e Acord2 takes the heights into account and its result is
+  //  exact for error-free observations; before, it was 0.1-2 m off, gama-local re-linearised or threw zenith angles away.  Both the weaker
+  //  "nothing is removed" form and the full form are kept)
+  if (on("C06")) { int k = 0; for (auto& s : specs) for (int omit = 0; omit < 2; omit++) { int alg = (k++) % 3; auto sp = std::make_shared<Spec3>(s); bool so = omit && s.name != "polar-plain";
+      add("net3d/consistent/" + s.name + "/" + ALGS[alg] + (omit ? (so ? "/acord-nothing-removed" : "/acord") : "/given"), "spatial networks", [sp, alg, omit, so] { case_consistent(*sp, alg, omit != 0, so); });
+      if (so) add("net3d/consistent/" + s.name + "/" + ALGS[alg] + "/acord", "spatial networks", [sp, alg] { case_consistent(*sp, alg, true, false); }); } }
+  if (on("C06")) { for (int alg = 0; alg < (th ? 3 : 1); alg++) { auto sp = std::make_shared<Spec3>(free_station("free-station", false)); add(std::string("net3d/consistent/free-station/") + ALGS[alg] + "/acord", "spatial networks", [sp, alg] { case_consistent(*sp, alg, true); }); } }
   if (on("C13")) { for (int v = 0; v < 2; v++) add(std::string("net3d/export-description/") + (v ? "station-height" : "sight-heights"), "spatial networks", [v] { case_export_description(v != 0); });
     add("net3d/export-description/station-height-covmat", "spatial networks", [] { case_export_description(true, "ne", "left-handed", true); });
+    add("net3d/export-description/station-height-degrees", "spatial networks", [] { case_export_description(true, "ne", "left-handed", false, true); });
+    add("net3d/export-description/sight-heights-covmat-degrees", "spatial networks", [] { case_export_description(false, "ne", "left-handed", true, true); });
     add("net3d/export-description/sight-heights@en", "spatial networks", [] { case_export_description(false, "en", "left-handed", false); });
     add("net3d/export-description/station-height-covmat@sw-right", "spatial networks", [] { case_export_description(true, "sw", "right-handed", true); });
     if (th) { add("net3d/export-description/sight-heights-covmat@nw", "spatial networks", [] { case_export_description(false, "nw", "left-handed", true); }); add("net3d/export-description/station-height@es-right", "spatial networks", [] { case_export_description(true, "es", "right-handed", false); }); } }
